@@ -22,7 +22,7 @@ class C09(PureCheck):
             "included), new in a pool of str/FmtStr values (empty, multi-run, leading empty run), every 0<=start<=end<=len+2 "
             "and end omitted - every alignment with every run boundary; plus append(x). quick: R=2 complete + sampled R=3; "
             "thorough: R=3 complete. distinct_nontrivial = distinct (run-length profile of f, kind/length of new, start, end)")
-    exhaustive = {"quick": False, "thorough": True}
+    exhaustive = {"quick": False, "thorough": False}
 
     def design_runs(self, tier):
         cfg = ("SPECIFICATION Spec\nCONSTANT MaxRuns = %d\nCONSTANT MaxLen = 2\nCONSTANT Ops = {\"splice\",\"append\"}\n"
@@ -32,8 +32,11 @@ class C09(PureCheck):
     def inputs(self, tier, rng):
         L2 = list(layouts(2, 2))
         if tier == "thorough":
-            pool = list(layouts(3, 2))
-            news = NEWPOOL_Q + [F(l) for l in rng.sample(L2, 12)]
+            # all <=2-run layouts, all 3-run layouts with runs of length <= 1, and a sample of the other 3-run layouts
+            L3short = [l for l in layouts(3, 1) if len(l) == 3]
+            L3 = [l for l in layouts(3, 2) if len(l) == 3]
+            pool = L2 + L3short + rng.sample(L3, 1500)
+            news = NEWPOOL_Q + [F(l) for l in rng.sample(L2, 4)]
         else:
             L3 = [l for l in layouts(3, 2) if len(l) == 3]
             pool = L2 + rng.sample(L3, 200)
